@@ -76,6 +76,33 @@ def run(R, job):
             return [cp]
         return [x]
 
+    class Field:
+        "a component with a .name attribute that happens to be 'body' / 'html'"
+        def __init__(self, name): self.name = name
+        def tagify(self): return core.Tag("textarea", "v", name=self.name)
+
+    class Hidden(core.Tag):
+        "a component written as a Tag subclass whose tagify() returns a (possibly empty) list"
+        def __init__(self, *kids): super().__init__("x-hidden"); self.kids = kids
+        def tagify(self): return core.TagList(*self.kids)
+
+    for nm in ("body", "html", "head", "other"):
+        checked += 1
+        try:
+            d1 = core.HTMLDocument(Field(nm)).render()["html"]
+            d2 = core.HTMLDocument(Field(nm).tagify()).render()["html"]
+            if d1 != d2:
+                fails.append({"input": f"HTMLDocument(<component with .name == {nm!r}>)", "observed": d1[:400], "expected": d2[:400]})
+        except Exception as ex:
+            fails.append({"input": f"HTMLDocument(<component with .name == {nm!r}>)", "observed": "EXC " + type(ex).__name__ + ": " + str(ex)[:100], "expected": "rendering of the expansion"})
+    for kids in ((), ("a",), (core.Tag("b", "x"), dep(1))):
+        checked += 1
+        t1 = core.Tag("div", "pre", Hidden(*kids), "post")
+        t2 = core.Tag("div", "pre", *kids, "post")
+        r1, r2 = t1.render(), t2.render()
+        if r1["html"] != r2["html"] or [d.name for d in r1["dependencies"]] != [d.name for d in r2["dependencies"]]:
+            fails.append({"input": f"div('pre', <Tag subclass whose tagify() returns TagList{kids!r}>, 'post')", "observed": r1["html"] + " deps=" + str([d.name for d in r1["dependencies"]]),
+                          "expected": r2["html"] + " deps=" + str([d.name for d in r2["dependencies"]])})
     for _ in range(n):
         t = build(3)
         if not isinstance(t, core.Tag):
